@@ -103,13 +103,27 @@ func (w *World) harnessCall(fr *frame, fn *ssa.Function, args []value) *hres {
 		if k <= 0 {
 			panic(engineError{"vfChoice: k must be positive"})
 		}
-		t := w.newInput(argStr(args[0]), 8)
-		w.assume(fromTerm(tt.Cmp(OpUlt, t, tt.Const(uint64(k), 8))))
+		wd := uint8(8)
+		if k > 255 {
+			wd = 16
+		}
+		if k > 65535 {
+			panic(engineError{"vfChoice: k too large"})
+		}
+		t := w.newInput(argStr(args[0]), wd)
+		w.assume(fromTerm(tt.Cmp(OpUlt, t, tt.Const(uint64(k), wd))))
 		return &hres{w.concretize(t, k+1)}
 	case "vfLen":
 		lo, hi := argInt(args[1]), argInt(args[2])
-		t := w.newInput(argStr(args[0]), 8)
-		w.assume(fromTerm(tt.Cmp(OpUle, t, tt.Const(uint64(hi-lo), 8))))
+		wd := uint8(8)
+		if hi-lo > 255 {
+			wd = 16
+		}
+		if hi < lo || hi-lo > 65535 {
+			panic(engineError{"vfLen: bad range"})
+		}
+		t := w.newInput(argStr(args[0]), wd)
+		w.assume(fromTerm(tt.Cmp(OpUle, t, tt.Const(uint64(hi-lo), wd))))
 		return &hres{uint64(lo) + w.concretize(t, hi-lo+2)}
 	case "vfRange":
 		lo, hi := int64(argInt(args[1])), int64(argInt(args[2]))
